@@ -27,7 +27,14 @@ def build_driver(prop, unit):
         return None, 'no native driver for unit %s' % unit
     exe = os.path.join(VERIF, '.work', prop, 'replay_%s' % unit)
     os.makedirs(os.path.dirname(exe), exist_ok=True)
-    cmd = CXX.format(repo=REPO).split() + [src, '-o', exe] + LINK.format(repo=REPO).split()
+    # the translation units under test are compiled from /repo's CURRENT sources and take precedence over
+    # the baseline library, which only supplies everything else
+    srcs = []
+    for ln in open(src):
+        m = re.match(r'//\s*REPLAY_SOURCES:\s*(.*)', ln)
+        if m:
+            srcs += [os.path.join(REPO, x) for x in m.group(1).split()]
+    cmd = CXX.format(repo=REPO).split() + ['-I', os.path.dirname(src), src] + srcs + ['-o', exe] + LINK.format(repo=REPO).split()
     p = subprocess.run(cmd, stdout=subprocess.PIPE, stderr=subprocess.STDOUT)
     if p.returncode != 0:
         return None, 'driver build failed: ' + p.stdout.decode(errors='replace')[-1500:]
@@ -61,7 +68,7 @@ def inputs_dict(inputs):
 
 def write_replay(prop, r, oid, line, desc, oname, builders):
     os.makedirs(OUT, exist_ok=True)
-    inputs = trace_inputs(r.trace) if r.trace else []
+    inputs = trace_inputs(r.trace, oid) if r.trace else []
     path = os.path.join(OUT, '%s-%s.json' % (prop, re.sub(r'[^A-Za-z0-9_.-]+', '_', oname)))
     rec = {
         'property': prop, 'obligation': oname, 'cbmc_id': oid, 'harness_file': r.job.path, 'line': line,
@@ -76,7 +83,8 @@ def write_replay(prop, r, oid, line, desc, oname, builders):
     if exe and inputs:
         with open(path, 'w') as f:
             json.dump(rec, f, indent=1)
-        p = subprocess.run([exe, path, desc], stdout=subprocess.PIPE, stderr=subprocess.STDOUT, timeout=120)
+        kv = write_kv(path, rec)
+        p = subprocess.run([exe, kv, desc], stdout=subprocess.PIPE, stderr=subprocess.STDOUT, timeout=120)
         rec['native'] = p.stdout.decode(errors='replace')[-2000:]
         reproduced = (p.returncode == 1)       # driver convention: 1 = failure reproduced, 0 = not reproduced
     else:
@@ -89,6 +97,14 @@ def write_replay(prop, r, oid, line, desc, oname, builders):
     return path, reproduced
 
 
+def write_kv(path, rec):
+    kv = path[:-5] + '.kv'
+    with open(kv, 'w') as f:
+        for k, v in rec['input_values'].items():
+            f.write('%s %s\n' % (k.replace(' ', ''), repr(float(v)) if isinstance(v, float) else v))
+    return kv
+
+
 def replay_file(path):
     rec = json.load(open(path))
     exe, why = build_driver(rec['property'], rec['unit'])
@@ -96,5 +112,5 @@ def replay_file(path):
         print('replay: %s; obligation %s; verifier output follows' % (why, rec['obligation']))
         print('\n'.join(rec.get('verifier_output', [])))
         return 1
-    p = subprocess.run([exe, path, rec['description']])
+    p = subprocess.run([exe, write_kv(path, rec), rec['description']])
     return p.returncode
